@@ -5,7 +5,7 @@ PROP = {
     "required_theorems": ["Verif.Properties.C51.orderedmap_refines", "Verif.Properties.C51.bimap_refines", "Verif.Properties.C51.bimap_inverse", "Verif.Properties.C51.ist_invariant", "Verif.Properties.C51.ist_search_sound_complete"],
     "streams": [
         {"name": "ds", "driver": "drv_ds",
-         "quick": {"n": 1500}, "thorough": {"n": 20000, "seeds": 4}},
+         "quick": {"n": 1500}, "thorough": {"n": 12000, "seeds": 4}},
     ],
     "exhaustive": False,
     "technique": "Lean 4 proof over code-shaped models of the ordered map, bimap, persistent set and interval tree "
